@@ -513,6 +513,14 @@ impl ContinuityStore {
                             .try_read_last_seq(continuity_id)
                             .ok()
                             .flatten()
+                            // Full sidecar missing or unreadable: the mr sidecar's last event is
+                            // not the head when non-message frames follow it; ask the truth log.
+                            .or_else(|| {
+                                self.event_log
+                                    .last_seq_of_stream(StreamKind::Continuity, continuity_id)
+                                    .ok()
+                                    .flatten()
+                            })
                             .or_else(|| tail.events.last().map(|event| event.seq))
                             .unwrap_or_default();
 
